@@ -37,7 +37,8 @@ struct Cmd {
     uid: Option<u32>,
     gid: Option<u32>,
     io: [Io; 3],
-    /// pre_exec closures: None = succeeds, Some(e) = fails with errno e
+    /// pre_exec closures: None = succeeds, Some(e) = fails with errno e, Some(-1) = fails with an
+    /// error that carries no errno (Error::Uncategorized)
     closures: Vec<Option<i32>>,
     exit: i32,
 }
@@ -78,6 +79,9 @@ fn base_cmds() -> Vec<Cmd> {
     let mut d = c([Io::Null, Io::Null, Io::Null]);
     d.closures = vec![None, Some(13)];
     v.push(d);
+    let mut d2 = c([Io::Null, Io::Null, Io::Null]);
+    d2.closures = vec![Some(-1)];
+    v.push(d2);
     v.push(c([Io::Null, Io::RawShared, Io::RawShared]));
     let mut e = c([Io::Pipe, Io::Null, Io::Pipe]);
     e.missing_bin = true;
@@ -136,7 +140,7 @@ fn gen_cmd(dec: &mut Dec) -> Cmd {
     let mut closures = vec![None; ncl];
     if ncl > 0 && dec.chance(K::Arg, 1, 4) {
         let i = dec.choose(K::Arg, ncl as u32) as usize;
-        closures[i] = Some(*dec.pick(K::Arg, &[1, 13, 28]));
+        closures[i] = Some(*dec.pick(K::Arg, &[1, 13, 28, -1]));
     }
     let (uid, gid) = match dec.choose(K::Arg, 5) {
         0 => (Some(0), Some(0)),
@@ -326,6 +330,7 @@ fn run_cmd(cmd: &Cmd, plan: Option<Plan>, dec: Dec, record: bool, slot: u64) -> 
             unsafe {
                 c.pre_exec(move || match cl {
                     None => Ok(()),
+                    Some(-1) => Err(Error::Uncategorized("pre_exec closure (scripted, no errno)")),
                     Some(e) => Err(Error::Os { msg: "pre_exec closure (scripted)", code: Errno::new(e) }),
                 });
             }
@@ -406,7 +411,8 @@ fn run_cmd(cmd: &Cmd, plan: Option<Plan>, dec: Dec, record: bool, slot: u64) -> 
     if expect_err.is_none() {
         // no injected step failure that must surface: natural failures decide (closures run before exec)
         if let Some(e) = closure_fail {
-            expect_err = Some(Some(e));
+            // a closure error without errno must still fail the spawn (with any error)
+            expect_err = Some(if e == -1 { None } else { Some(e) });
         } else if cmd.missing_bin {
             expect_err = Some(Some(2));
         }
@@ -729,7 +735,7 @@ impl Check for C13 {
         12
     }
     fn rule(&self) -> String {
-        "enumeration part (complete): 12 base commands (every stdio mode per stream, args incl. empty and non-UTF-8, provided environment with duplicates/empty values/'=' in values, cwd, pgroup, uid/gid current and 65534, succeeding and failing pre_exec closures, missing binary) x every system-call index of the recorded parent trace and of the child trace between fork and exec x every plausible errno. seeded part: generated commands (0..7 args incl. 5000-byte and invalid UTF-8, 0..6 env entries, all options) with no fault or one drawn single fault. Oracle: code placed right after spawn() compares pids (a forked copy that gets there reports through a shared page); Ok => the exec target's dump (argv, raw environment block, cwd, pgid, uid/gid, identity of descriptors 0-2) equals the configuration and wait() yields its exit status; a failing step => Err with that step's errno and no child left alive. non-trivial = a fault fired or a closure/exec failure was configured; distinct = hash of (command, trace, plan)".into()
+        "enumeration part (complete): 13 base commands (every stdio mode per stream, args incl. empty and non-UTF-8, provided environment with duplicates/empty values/'=' in values, cwd, pgroup, uid/gid current and 65534, succeeding and failing pre_exec closures incl. one failing without an errno, missing binary) x every system-call index of the recorded parent trace and of the child trace between fork and exec x every plausible errno. seeded part: generated commands (0..7 args incl. 5000-byte and invalid UTF-8, 0..6 env entries, all options) with no fault or one drawn single fault. Oracle: code placed right after spawn() compares pids (a forked copy that gets there reports through a shared page); Ok => the exec target's dump (argv, raw environment block, cwd, pgid, uid/gid, identity of descriptors 0-2) equals the configuration and wait() yields its exit status; a failing step => Err with that step's errno and no child left alive. non-trivial = a fault fired or a closure/exec failure was configured; distinct = hash of (command, trace, plan)".into()
     }
     fn assumptions(&self) -> Vec<String> {
         vec![
